@@ -44,8 +44,10 @@ var compiledRegexCache = ttlcache.New[string, *regexp.Regexp](
 		func(c *ttlcache.Cache[string, *regexp.Regexp], pattern string) *ttlcache.Item[string, *regexp.Regexp] {
 			// pattern is the cache key, we must not modify it for the Set call.
 			// Escape all regex metacharacters, then restore glob wildcards as capture groups.
+			// (?s) lets the wildcards match every character, including a newline: a '*' route is a
+			// catch-all for any virtual host a client can send.
 			regexStr := regexp.QuoteMeta(pattern)
-			regexStr = "^" + strings.ReplaceAll(regexStr, "\\?", "(.)") + "$"
+			regexStr = "(?s)^" + strings.ReplaceAll(regexStr, "\\?", "(.)") + "$"
 			regexStr = strings.ReplaceAll(regexStr, "\\*", "(.*?)")
 			reg, _ := regexp.Compile(regexStr)
 
